@@ -5,6 +5,7 @@ import itertools
 import sys
 
 from .. import core
+from . import _doc
 
 ID = "C11"
 LEVEL = "model_checking"
@@ -14,7 +15,9 @@ RULE = ("field values = all concatenations of <= L layout pieces (words, blanks,
         "complete edit histories followed by dump + fresh parse; non-trivial = layouts with >= 2 values or a line break.  "
         "Route units: the same reads and histories with one of ROUTES (document shape, way of obtaining the list object, block "
         "style) in place of the default route; extra units: histories that use references taken at the start of a block, layout "
-        "calls ahead of an append, and reformatting on write-back (non-trivial there = accepted edits)")
+        "calls ahead of an append, and reformatting on write-back (non-trivial there = accepted edits); ladder units: "
+        "generated values with 1..40, 63..1001 (thorough: 5000) values / lines / comment lines / separators and a value of "
+        "997..65537 (thorough: 262145) characters: a state is one generated layout, transitions are its single edits")
 BUDGET = {"quick": 240, "thorough": 3000}
 
 
@@ -42,6 +45,16 @@ def bounds(tier):
                             "values, other fields and validity are judged exactly as without reformatting; "
                             "value_formatter(f) without force and without an edit must leave the document byte-identical"
                             % ((3, 2) if tier == "quick" else (4, 3)),
+            "count_ladders": "generated values (signatures ladder/<kind>/...) of the kinds %s (see ladder_value) with n in 1..40, %s: read, "
+                             "a session that changes nothing (field in the middle, and - n <= 12 or odd - as unterminated last field of the document), "
+                             "and single edits addressing the first, middle and last value (n <= 12: append, remove, replace, "
+                             "reference set / remove at each - 13 edits; n <= 129: 6; above: 4), alternately with and without "
+                             "reading the open list, all ways of dumping compared" % (
+                                 ", ".join(LADDER_KINDS), sorted({d["n"] for d in ladder_descs(tier) if d["n"] > 40})),
+            "size_ladders": "three values, the middle one of L characters, L in %s, content %s (whitespace lists) / %s (comma "
+                            "lists; special characters just before / at / across every multiple of 4096): the same reads and edits "
+                            "(signatures size/<content>/...)" % (sorted({d["n"] for d in size_descs("ws", tier)}),
+                                                                 ", ".join(SIZE_CONTENTS["ws"]), ", ".join(SIZE_CONTENTS["comma"])),
             "append_after_layout_calls": "append_separator() / append_separator(space_after_separator=False) / append_newline() / "
                                          "append_comment() / newline+comment, each followed by append(z): layouts of <= %d pieces"
                                          % (3 if tier == "quick" else 4)}
@@ -68,6 +81,9 @@ def assumptions():
             "reads the same values and a session without edits leaves it byte-identical; EDITING such a field is not "
             "demanded - the control-file format ends lines with LF only, and the unchanged library refuses the write-back "
             "('Input is inconsistent with its line endings': its writer splits the new text at the bare CR)",
+            "ladders: values beyond the small scope vary ONE count or length in an otherwise plain list; edits there are single "
+            "edits (depth 1); counts stop at 1001 in the quick tier (5000 thorough), lengths at 65537 (262145 thorough); an item "
+            "of a comma list that spans lines reads with its inner line break, as in the small scope",
             "LIST_UPLOADERS_INTERPRETATION is a third interpretation with its own splitting rule and is not covered by the "
             "statement (whitespace- or comma-separated)"]
 
@@ -147,10 +163,13 @@ def units(tier, seed):
         out += [{"interp": interp, "extra": first} for first in PIECES[interp](seed)]
     # the same small values in a field whose lines end in CR LF (the carriage return is white space next to a value)
     out += [{"interp": interp, "crlf": True} for interp in ("ws", "comma")]
+    out += scale_units(tier)
     return out
 
 
 def unit_cost(u, tier):
+    if "ladder" in u:
+        return 8
     return 1 if "sweep" in u or "route" in u else 3 if "extra" in u else 10
 
 
@@ -746,6 +765,8 @@ def run_extra(part, interp, first, tier, seed):
 def run_unit(u, tier, seed):
     part = core.Part()
     interp = u["interp"]
+    if "ladder" in u:
+        return run_ladder(part, interp, u["ladder"])
     if "sweep" in u:
         return run_sweep(part, interp, u["sweep"])
     if "route" in u:
@@ -861,10 +882,16 @@ def run_unit(u, tier, seed):
 
 def replay(case):
     case = dict(case, sessions=[[tuple(e) for e in s] for s in case["sessions"]])
+    if "vdesc" in case:
+        case = expand_case(case)
     return run_case(case)[0]
 
 
 def repro_py(case):
+    if "vdesc" in case:
+        return ("# generated value: mc/props/c11.py ladder_value(%r, %r); edits named by position\nimport sys\n"
+                "sys.path.insert(0, '/verif')\nfrom mc.props import c11\nprint(c11.replay(%r))\n"
+                % (case["interp"], case["vdesc"], case))
     shape = case.get("shape", case.get("place", "mid"))
     sh = SHAPES[shape]
     return ("from debian._deb822_repro import parse_deb822_file, LIST_SPACE_SEPARATED_INTERPRETATION as WS, "
@@ -874,3 +901,191 @@ def repro_py(case):
             "with p.as_interpreted_dict_view(%s)[%r] as lst:\n    print(list(lst))  # sessions: %r\nprint(repr(f.dump()))\n"
             % (shape, case.get("access", "item"), case.get("block", "with"), case.get("reformat"),
                sh[0] + "F:" + case["value"] + sh[1], sh[3], "WS" if case["interp"] == "ws" else "CS", sh[5], case["sessions"]))
+
+
+# ---------------------------------------------------------------- beyond the small scope: count and size ladders
+
+LADDER_KINDS = ("one-line", "one-per-line", "spread", "spread-tabs", "few-separators", "comments", "comments-alternating",
+                "separators", "trailing-separators", "leading-blanks", "repeated-value", "first-line-empty")
+SIZE_CONTENTS = {"ws": ("plain", "multibyte", "hash", "colon-free"), "comma": ("plain", "multibyte", "hash", "words", "tab")}
+
+
+def ladder_value(interp, d):
+    """compact description -> the text of the list field (everything after `F:`).  n values v1..vn:
+      one-line               all on the first line
+      one-per-line           one value per line (comma lists: the separator ends every line but the last)
+      spread                 over n lines with few separators: comma lists - an item is two words on two lines, a comma only
+                             after every second line; whitespace lists - one or two words per line (spread-tabs: tab
+                             continuation lines, blanks at the line ends)
+      few-separators         n lines of two words; comma lists: a single comma after the middle line, comment lines among
+                             the lines of the second half
+      comments               two values with n comment lines between their lines
+      comments-alternating   n value lines, a comment line after each but the last
+      separators             two values with n separators (blanks / commas) between them
+      trailing-separators    one value followed by n separators; leading-blanks: n blanks, then the values
+      repeated-value         the same value n times and another one in the middle
+      first-line-empty       nothing after the colon, then n value lines
+      size                   three values, the middle one of n characters (content: see _doc.sized_text; for whitespace
+                             lists without blanks inside)"""
+    kind, n = d["kind"], d["n"]
+    sep = " " if interp == "ws" else ", "
+    vs = ["v%d" % i for i in range(1, n + 1)]
+    if kind == "one-line":
+        return " " + sep.join(vs)
+    if kind == "one-per-line":
+        return " " + (sep.rstrip() + "\n ").join(vs)
+    if kind in ("spread", "spread-tabs"):
+        ind = " " if kind == "spread" else "\t"
+        end = "" if kind == "spread" else " "
+        lines = []
+        for i in range(1, n + 1):
+            if interp == "comma":
+                lines.append("w%d x%d" % (i, i) if i % 3 else "w%d" % i)
+                if i % 2 == 0 and i != n:
+                    lines[-1] += ","
+            else:
+                lines.append("w%d x%d" % (i, i) if i % 3 == 0 else "w%d" % i)
+        return " " + (end + "\n" + ind).join(lines)
+    if kind == "few-separators":
+        # n lines of two words each; comma lists: one comma, after the middle line (two items that span many lines),
+        # the second half interleaved with comment lines
+        lines = ["w%d x%d" % (i, i) for i in range(1, n + 1)]
+        if interp == "comma" and n > 1:
+            lines[(n - 1) // 2] += ","
+        return " " + "".join(l + ("\n#c\n " if 2 * i > n and i % 2 == 0 else "\n ") for i, l in enumerate(lines[:-1], 1)) + lines[-1]
+    if kind == "comments":
+        return " a" + sep.rstrip() + "\n" + "".join("#c %d\n" % i for i in range(1, n + 1)) + " b"
+    if kind == "comments-alternating":
+        return " " + (sep.rstrip() + "\n#c\n ").join(vs)
+    if kind == "separators":
+        return " a" + (" " * n if interp == "ws" else "," * n) + "b"
+    if kind == "trailing-separators":
+        return " a" + (" " * n if interp == "ws" else ", " * n)
+    if kind == "leading-blanks":
+        return " " * n + "a" + sep + "b"
+    if kind == "repeated-value":
+        xs = ["r"] * n
+        xs.insert((n + 1) // 2, "m")
+        return " " + sep.join(xs)
+    if kind == "first-line-empty":
+        return "\n " + (sep.rstrip() + "\n ").join(vs)
+    if kind == "size":
+        c = d["content"]
+        if c == "colon-free":
+            t = _doc.sized_text(n, "plain").replace("j", ":")
+        elif c == "tab":
+            t = _doc.sized_text(n, "tab")
+        else:
+            t = _doc.sized_text(n, c)
+        if interp == "ws":
+            t = t.replace(" ", "_")
+            assert len(t.split()) == 1
+        return " a" + sep + t + sep.rstrip() + "\n b"
+    raise AssertionError(d)
+
+
+def ladder_edits(vals, interp):
+    """edits named by POSITION in the list as read (expanded against the oracle's list): the first, middle and last
+    value removed / replaced / set or removed through its reference, and an append"""
+    n = len(vals)
+    out = [("append", "z")]
+    for i in sorted({0, n // 2, n - 1}):
+        out += [("@remove", i), ("@replace", i, "z"), ("refset", i, "z"), ("refremove", i)]
+    return out
+
+
+def expand_case(case):
+    v = ladder_value(case["interp"], case["vdesc"])
+    vals = split_oracle(v, case["interp"])
+    sessions = []
+    for sess in case["sessions"]:
+        out = []
+        for e in sess:
+            e = tuple(e)
+            if e[0] == "@remove":
+                e = ("remove", vals[e[1]])
+            elif e[0] == "@replace":
+                e = ("replace", vals[e[1]], e[2])
+            out.append(e)
+        sessions.append(out)
+    c = dict(case, value=v, sessions=sessions)
+    return c
+
+
+def ladder_descs(tier):
+    NS = _doc.LADDER_NS
+    ns = NS["small"] + NS["mid"] + ([1000, 1001] if tier == "quick" else NS["big"] + NS["huge"])
+    out = []
+    for n in ns:
+        for kind in LADDER_KINDS:
+            out.append({"kind": kind, "n": n})
+    return out
+
+
+def size_descs(interp, tier):
+    return [{"kind": "size", "n": L, "content": c} for L in _doc.SIZE_LS if tier != "quick" or L <= 65537
+            for c in SIZE_CONTENTS[interp]]
+
+
+def scale_units(tier):
+    out = []
+    for interp in ("ws", "comma"):
+        ds = ladder_descs(tier)
+        small = [d for d in ds if d["n"] <= 40]
+        big = [d for d in ds if d["n"] > 40]
+        for k in range(4):
+            out.append({"interp": interp, "ladder": small[k::4]})
+        for k in range(8):
+            out.append({"interp": interp, "ladder": big[k::8]})
+        sz = size_descs(interp, tier)
+        for k in range(4):
+            out.append({"interp": interp, "ladder": sz[k::4]})
+    return out
+
+
+def run_ladder(part, interp, descs):
+    for d in descs:
+        v = ladder_value(interp, d)
+        if not valid_value(v):
+            part.outcomes["ladder/not-a-field-value"] += 1
+            continue
+        fam = ("size/%s/" % d["content"]) if d["kind"] == "size" else "ladder/%s/" % d["kind"]
+        vals = split_oracle(v, interp)
+        part.states += 1
+        part.transitions += 1
+        if len(vals) >= 2:
+            part.nontrivial += 1
+        shapes = ("mid", "last-open") if d["n"] <= 12 or d["n"] % 2 else ("mid",)
+        for shape in shapes:
+            base = {"interp": interp, "vdesc": d, "tag": fam, "shape": shape}
+            cases = [dict(base, sessions=[]), dict(base, sessions=[[("refread",)], []], views="same")]
+            if shape == "mid":
+                edits = ladder_edits(vals, interp)
+                n = len(vals)
+                if d["n"] > 129:
+                    edits = [("append", "z"), ("@remove", n // 2), ("refremove", 0), ("refset", n - 1, "z")]
+                elif d["n"] > 12:
+                    edits = [("append", "z"), ("@remove", n // 2), ("@replace", 0, "z"), ("refremove", 0), ("refset", n - 1, "z"),
+                             ("refremove", n - 1)]
+                edits = [e for k, e in enumerate(edits) if e not in edits[:k]]
+                cases += [dict(base, sessions=[[e]], observe=(k % 2 == 0), dumps=True, closed=True)
+                          for k, e in enumerate(edits)]
+            for c in cases:
+                bad, _v = run_case(expand_case(c))
+                part.traces += 1
+                part.evaluations += 1
+                if c["sessions"]:
+                    part.transitions += 1
+                for sig, exp, obs in bad:
+                    part.violation(sig, c, _short(exp), _short(obs), rank=d["n"])
+                part.outcomes["%s%s/%s" % (fam, interp, "VIOLATION" if bad else "read" if not c["sessions"] else
+                                           "no-change" if not any(e[0] != "refread" for s_ in c["sessions"] for e in s_) else "edit")] += 1
+        part.max_depth = max(part.max_depth, 1)
+    if descs:
+        part.sample(dict(base, sessions=[]))
+    return part
+
+
+def _short(x):
+    r = x if isinstance(x, str) else repr(x)
+    return x if len(r) < 600 else r[:280] + " ...(%d characters)... " % len(r) + r[-280:]
